@@ -170,4 +170,23 @@ theorem PseudoVersionBase_ok (v : Bytes) (fuel : Nat) (hf : 2 * v.length ≤ fue
     simp only [parseOut, bind_ok, Option.isNone_none, Bool.not_true, Bool.false_eq_true, if_false]
     exact baseRest_ok p fuel (by omega)
 
+/-! ### concrete inputs of the non-vacuity examples in Tie/FnPseudo.lean -/
+
+/-- "v1.2.4-0.20060102150405-abcdefabcdef" -/
+def exRelease : Bytes := [118, 49, 46, 50, 46, 52, 45, 48, 46, 50, 48, 48, 54, 48, 49, 48, 50, 49, 53, 48, 52, 48, 53, 45, 97, 98, 99,
+  100, 101, 102, 97, 98, 99, 100, 101, 102]
+/-- "v1.0.0-20060102150405-abcdefabcdef+incompatible" -/
+def exNoBaseBuild : Bytes := [118, 49, 46, 48, 46, 48, 45, 50, 48, 48, 54, 48, 49, 48, 50, 49, 53, 48, 52, 48, 53, 45, 97, 98, 99, 100,
+  101, 102, 97, 98, 99, 100, 101, 102, 43, 105, 110, 99, 111, 109, 112, 97, 116, 105, 98, 108, 101]
+/-- "v1.2.3-pre.0.20060102150405-abcdefabcdef" -/
+def exPre : Bytes := [118, 49, 46, 50, 46, 51, 45, 112, 114, 101, 46, 48, 46, 50, 48, 48, 54, 48, 49, 48, 50, 49, 53, 48, 52, 48, 53,
+  45, 97, 98, 99, 100, 101, 102, 97, 98, 99, 100, 101, 102]
+/-- "v1.0.0-0.20060102150405-abcdefabcdef" -/
+def exNegative : Bytes := [118, 49, 46, 48, 46, 48, 45, 48, 46, 50, 48, 48, 54, 48, 49, 48, 50, 49, 53, 48, 52, 48, 53, 45, 97, 98, 99,
+  100, 101, 102, 97, 98, 99, 100, 101, 102]
+/-- "20060102150405" -/
+def exStamp : Bytes := [50, 48, 48, 54, 48, 49, 48, 50, 49, 53, 48, 52, 48, 53]
+/-- "abcdefabcdef" -/
+def exRev : Bytes := [97, 98, 99, 100, 101, 102, 97, 98, 99, 100, 101, 102]
+
 end ModVerif.TieFnPseudo
